@@ -995,16 +995,31 @@ func checkSecurityTemplates(c *core.Ctx, r *core.Rule) {
 		r.Undecided("anchor:bitset.Set", "-", "internal/bitset.(*Bitset).Set not found")
 		return
 	}
+	// Set and the helpers of package bitset it calls (index arithmetic and growth may be factored out)
+	setFns := []*ssa.Function{setFn}
+	{
+		seenF := map[*ssa.Function]bool{setFn: true}
+		for i := 0; i < len(setFns) && len(setFns) < 8; i++ {
+			for _, call := range core.Calls(setFns[i]) {
+				if cal := call.Common().StaticCallee(); cal != nil && !seenF[cal] && core.FuncPkgPath(cal) == pkgBitset && len(cal.Blocks) > 0 {
+					seenF[cal] = true
+					setFns = append(setFns, cal)
+				}
+			}
+		}
+	}
 	var quo, rem int64 = -1, -1
-	for _, b := range setFn.Blocks {
-		for _, in := range b.Instrs {
-			if bo, ok := in.(*ssa.BinOp); ok {
-				if k, isK := core.ConstInt(bo.Y); isK {
-					if bo.Op == token.QUO {
-						quo = k
-					}
-					if bo.Op == token.REM {
-						rem = k
+	for _, f := range setFns {
+		for _, b := range f.Blocks {
+			for _, in := range b.Instrs {
+				if bo, ok := in.(*ssa.BinOp); ok {
+					if k, isK := core.ConstInt(bo.Y); isK {
+						if bo.Op == token.QUO {
+							quo = k
+						}
+						if bo.Op == token.REM {
+							rem = k
+						}
 					}
 				}
 			}
@@ -1012,17 +1027,25 @@ func checkSecurityTemplates(c *core.Ctx, r *core.Rule) {
 	}
 	// growth of the bitset preserves the bits already set: every store to *r is append(*r, …)
 	growOK, nStores := true, 0
-	recv := setFn.Params[0]
-	for _, b := range setFn.Blocks {
-		for _, in := range b.Instrs {
-			st, ok := in.(*ssa.Store)
-			if !ok || st.Addr != ssa.Value(recv) {
-				continue
-			}
-			nStores++
-			if !isAppendTo(st.Val, recv) {
-				growOK = false
-				r.Fail("bitset.Set:grow", c.Pos(st.Pos()), "Bitset.Set replaces the slice instead of appending to it: bits set earlier are lost when a scheme index crosses a byte boundary (9 or more schemes in one operation)")
+	for _, f := range setFns {
+		if len(f.Params) == 0 {
+			continue
+		}
+		recv := f.Params[0]
+		if _, isPtr := recv.Type().Underlying().(*types.Pointer); !isPtr {
+			continue
+		}
+		for _, b := range f.Blocks {
+			for _, in := range b.Instrs {
+				st, ok := in.(*ssa.Store)
+				if !ok || st.Addr != ssa.Value(recv) {
+					continue
+				}
+				nStores++
+				if !isAppendTo(st.Val, recv) {
+					growOK = false
+					r.Fail("bitset.Set:grow", c.Pos(st.Pos()), "Bitset.Set replaces the slice instead of appending to it: bits set earlier are lost when a scheme index crosses a byte boundary (9 or more schemes in one operation)")
+				}
 			}
 		}
 	}
